@@ -3,6 +3,7 @@
 #include <stdlib.h>
 #include <string.h>
 #include <ucontext.h>
+#include <unistd.h>
 #include "simhal.h"
 
 #if defined(__has_feature)
@@ -33,7 +34,7 @@ bool Hal_setTimeInNs(nsSinceEpoch t) { (void) t; return false; }
 #define MAX_TASKS 64
 #define STACK_SIZE (512 * 1024)
 struct sSimTask { ucontext_t ctx; void* stack; ThreadExecutionFunction fn; void* param; int state; /* 0 new,1 runnable,2 done */
-    struct sSemaphore* blocked_on; bool started; bool autodestroy; bool used; };
+    struct sSemaphore* blocked_on; bool started; bool autodestroy; bool used; const char* where; int joining; };
 static SimTask tasks[MAX_TASKS]; static int n_tasks = 0; static int cur_task = -1;
 static ucontext_t main_ctx;
 int sim_deadlock = 0; char sim_deadlock_info[256]; int sim_last_task = -1;
@@ -50,7 +51,8 @@ static void switch_to_main(void)
     __sanitizer_finish_switch_fiber(fake, NULL, NULL);
 #endif
 }
-static void sim_yield(void) { if (cur_task >= 0) switch_to_main(); }
+static void sim_yield_at(const char* where) { if (cur_task >= 0) { tasks[cur_task].where = where; switch_to_main(); } }
+static void sim_yield(void) { sim_yield_at("HAL call"); }
 static void trampoline(int idx)
 {
 #ifdef SIM_ASAN
@@ -62,7 +64,7 @@ static void trampoline(int idx)
 }
 int sim_task_count(void) { return n_tasks; }
 bool sim_task_done(int i) { return i < n_tasks && tasks[i].state == 2; }
-struct sSemaphore { int value; int initial; int id; };
+struct sSemaphore { int value; int initial; int id; int owner; /* task holding it: -1 application context, -2 nobody */ };
 bool sim_task_runnable(int i) { return i < n_tasks && tasks[i].started && tasks[i].state != 2 && (tasks[i].blocked_on == NULL || tasks[i].blocked_on->value > 0); }
 void sim_task_step(int i)
 {
@@ -82,7 +84,7 @@ Thread Thread_create(ThreadExecutionFunction function, void* parameter, bool aut
     for (int i = 0; i < n_tasks; i++) if (!tasks[i].used) { slot = i; break; }
     if (slot < 0) { if (n_tasks >= MAX_TASKS) return NULL; slot = n_tasks++; }
     SimTask* t = &tasks[slot]; memset(t, 0, sizeof *t); sim_last_task = slot;
-    t->fn = function; t->param = parameter; t->autodestroy = autodestroy; t->used = true;
+    t->joining = -1; t->fn = function; t->param = parameter; t->autodestroy = autodestroy; t->used = true;
     t->stack = malloc(STACK_SIZE);
     sim_live_threads++;
     return (Thread) t;
@@ -103,41 +105,80 @@ void Thread_destroy(Thread thread)
     if (cur_task != -1) {
         /* a task joins another task: yield until the other is done */
         int guard = 0;
-        while (t->started && t->state != 2 && guard++ < 100000) sim_yield();
+        tasks[cur_task].joining = idx;
+        while (t->started && t->state != 2 && guard++ < 100000) sim_yield_at("Thread_destroy (join)");
+        tasks[cur_task].joining = -1;
     } else {
         int guard = 0;
         while (t->started && t->state != 2) {
-            if (!sim_task_runnable(idx) || guard++ > 100000) { sim_deadlock = 1; snprintf(sim_deadlock_info, sizeof sim_deadlock_info, "join of task %d cannot progress (blocked on semaphore %d)", idx, t->blocked_on ? t->blocked_on->id : -1); break; }
-            sim_task_step(idx);
+            if (sim_task_runnable(idx) && guard++ <= 100000) { sim_task_step(idx); continue; }
+            /* the joined thread is blocked: let the thread that holds what it waits for run */
+            bool progressed = false;
+            for (int i = 0; i < n_tasks && guard <= 100000; i++) if (i != idx && sim_task_runnable(i)) { sim_task_step(i); progressed = true; guard++; }
+            if (!progressed || guard > 100000) { sim_deadlock = 1; snprintf(sim_deadlock_info, sizeof sim_deadlock_info, "join of task %d cannot progress (blocked on semaphore %d held by task %d)", idx, t->blocked_on ? t->blocked_on->id : -1, t->blocked_on ? t->blocked_on->owner : -2); break; }
         }
     }
     if (t->state == 2 || !t->started) { free(t->stack); t->stack = NULL; t->used = false; sim_live_threads--; }
 }
-void Thread_sleep(int millies) { sim_hal_calls++; (void) millies; sim_yield(); }
+bool sim_main_sleep_runs_tasks = false;   /* when set: a sleeping application context lets every runnable thread run one step */
+static long main_sleeps = 0;
+void Thread_sleep(int millies)
+{
+    sim_hal_calls++; (void) millies;
+    if (cur_task >= 0) { sim_yield_at("Thread_sleep"); return; }
+    if (!sim_main_sleep_runs_tasks) return;
+    bool any = false;
+    for (int i = 0; i < n_tasks; i++) if (sim_task_runnable(i)) { sim_task_step(i); any = true; }
+    if (any) main_sleeps = 0;
+    else if (++main_sleeps > 100000) { printf("LOCK_FAIL deadlock: the application context sleeps forever and no thread can run (%s)\n", sim_deadlock_info); fflush(stdout); _exit(0); }
+}
 
 /* ------------------------------------------------------------------ semaphores */
 long sim_sem_waits = 0, sim_sem_posts = 0; int sim_sem_max_value = 0, sim_sem_violations = 0; char sim_sem_violation_where[256];
 static int sem_ids = 0;
 Semaphore Semaphore_create(int initialValue)
 {
-    struct sSemaphore* s = calloc(1, sizeof *s); s->value = initialValue; s->initial = initialValue; s->id = sem_ids++; sim_live_semaphores++;
+    struct sSemaphore* s = calloc(1, sizeof *s); s->value = initialValue; s->initial = initialValue; s->id = sem_ids++; s->owner = -2; sim_live_semaphores++;
     return (Semaphore) s;
+}
+bool (*sim_preempt_hook)(void) = NULL;       /* when set: a fiber may also be descheduled right after a wait / post */
+int sim_owner_violations = 0; char sim_owner_violation_where[256];
+static void note_deadlock(const char* fmt, int a, int b)
+{
+    if (!sim_deadlock) {
+        int n = snprintf(sim_deadlock_info, sizeof sim_deadlock_info, fmt, a, b);
+        /* the wait-for chain: which thread waits for which semaphore, held by whom */
+        for (int i = 0; i < n_tasks && n < (int) sizeof sim_deadlock_info - 40; i++) if (tasks[i].used && tasks[i].started && tasks[i].state != 2)
+            n += snprintf(sim_deadlock_info + n, sizeof sim_deadlock_info - n, "; task %d in %s (joining %d) %s sem %d (holder %d)", i, tasks[i].where ? tasks[i].where : "?", tasks[i].joining, tasks[i].blocked_on ? "waits for" : "not blocked,", tasks[i].blocked_on ? tasks[i].blocked_on->id : -1, tasks[i].blocked_on ? tasks[i].blocked_on->owner : -2);
+    }
+    sim_deadlock = 1;
 }
 void Semaphore_wait(Semaphore self)
 {
     struct sSemaphore* s = (struct sSemaphore*) self; sim_sem_waits++; sim_hal_calls++;
+    int guard = 0;
     while (s->value <= 0) {
-        if (cur_task < 0) { sim_deadlock = 1; snprintf(sim_deadlock_info, sizeof sim_deadlock_info, "main context waits on taken semaphore %d (self-deadlock)", s->id); s->value = 1; break; }
-        tasks[cur_task].blocked_on = s; sim_yield(); tasks[cur_task].blocked_on = NULL;
+        if (s->owner == cur_task) { note_deadlock("task %d waits on semaphore %d which it already holds (self-deadlock)", cur_task, s->id); s->value = 1; break; }
+        if (cur_task < 0) {
+            /* the application context blocks: let the other threads run until the semaphore is free */
+            bool progressed = false;
+            for (int i = 0; i < n_tasks && s->value <= 0; i++) if (sim_task_runnable(i)) { sim_task_step(i); progressed = true; }
+            if ((!progressed || guard++ > 100000) && s->value <= 0) { note_deadlock("application context waits on semaphore %d held by task %d and no thread can run", s->id, s->owner); s->value = 1; break; }
+            continue;
+        }
+        tasks[cur_task].blocked_on = s; sim_yield_at("Semaphore_wait"); tasks[cur_task].blocked_on = NULL;
     }
-    s->value--;
+    s->value--; s->owner = cur_task;
+    if (cur_task >= 0 && sim_preempt_hook && sim_preempt_hook()) sim_yield();
 }
 void Semaphore_post(Semaphore self)
 {
     struct sSemaphore* s = (struct sSemaphore*) self; sim_sem_posts++; sim_hal_calls++;
-    s->value++;
+    if (s->initial == 1 && s->value <= 0 && s->owner != cur_task) { if (!sim_owner_violations) snprintf(sim_owner_violation_where, sizeof sim_owner_violation_where, "semaphore %d taken by task %d released by task %d", s->id, s->owner, cur_task); sim_owner_violations++; }
+    s->value++; s->owner = -2;
     if (s->value > sim_sem_max_value) sim_sem_max_value = s->value;
     if (s->value > s->initial) { if (!sim_sem_violations) snprintf(sim_sem_violation_where, sizeof sim_sem_violation_where, "semaphore %d posted to value %d (initial %d)", s->id, s->value, s->initial); sim_sem_violations++; }
+    if (cur_task >= 0 && sim_preempt_hook && sim_preempt_hook()) sim_yield();
 }
 void Semaphore_destroy(Semaphore self) { if (self) { free(self); sim_live_semaphores--; } }
 
